@@ -88,3 +88,21 @@ PROPOSED.update({
         technique="MIR -> SMT-LIB2 over Int across store + model, z3 (cvc5 cross-check), native replay through glv_insert_market / glv_validate_market_token_balance hooks",
         design="C45", engine="mir2smt+kani"),
 })
+
+PROPOSED.update({
+    "C37": dict(
+        text=BOUNDED + "E2 part: the MIR of the real GtBank::reserve_balances for a bank holding one token balance (the fixed-map iterator is abstract and yields that entry; loop unrolled once, bound checked): "
+             "Ok exactly when numerator <= denominator and (balance == 0 or denominator != 0); then the new balance is floor(balance*numerator/denominator) <= the old one; on Err the balance is unchanged; no panic "
+             "(every u64 balance, every u128 numerator / denominator). Claim formula of CompleteGtExchange::execute: only its kernel <u64 as MulDiv>::checked_mul_div(balance, gt_amount, total) under the precondition "
+             "total >= gt_amount the code checks first: Some(amount) with amount = floor(balance*gt_amount/total) <= balance, None exactly for total == 0.",
+        note="CompleteGtExchange::execute itself (account loop, token CPIs) and banks with several balances (same body per entry, documented as not atomic) are outside the subset; claim orders / draining are not decided by E2.",
+        technique="MIR -> SMT-LIB2 over Int with bounded CFG unrolling and an abstract map iterator, z3 (cvc5 cross-check), native replay through gmsol_treasury::verif_hooks", design="C37", engine="mir2smt+kani"),
+    "C38": dict(
+        text=BOUNDED + "E2 part: calculate_gt_reward_amount (every u128 stake value / APY per second / inverse-cost integral, every i64 duration): Ok exactly when duration >= 0 and neither product exceeds u128; "
+             "the amount is min(floor(floor(stake*apy/10^20)*integral/10^20), u64::MAX) - saturating, never wrapping, hence monotone in stake and integral; no panic. compute_time_weighted_apy with the 53-bucket "
+             "loop unrolled 52 times (bound checked), one obligation set per number of full weeks 0..51 and one for >= 52: the result is floor(sum over every elapsed second of that second's weekly bucket / "
+             "elapsed seconds), weeks past the last bucket using the last one, <= 200%; now <= start gives the first bucket.",
+        note="Assumes gradient entries <= 2*10^20 (the cap), start >= 0 and now = start + elapsed <= i64::MAX (with a negative start and more than i64::MAX elapsed seconds the overflow-checked `now - start` panics), "
+             "elapsed <= 1701411834604692317 s (beyond it the saturating accumulator can clip). Unstake / exit logic is not encoded by E2.",
+        technique="MIR -> SMT-LIB2 over Int with bounded CFG unrolling and interval folding of the week arithmetic, z3 (cvc5 cross-check), native replay through gmsol_liquidity_provider::verif_hooks", design="C38", engine="mir2smt+kani"),
+})
